@@ -101,11 +101,11 @@ end`},
 		{Kind: "find-under-pcall-backtracking", Family: "string.find-backtracking", Script: fmt.Sprintf("pcall(string.find, %s, %q) return 0", A, lazyPat)},
 		{Kind: "find-in-coroutine-backtracking", Family: "string.find-backtracking", Script: fmt.Sprintf("coroutine.wrap(string.find)(%s, %q) return 0", A, lazyPat)},
 		{Kind: "find-built-subject-backtracking", Family: "string.find-backtracking", Script: double(8) + fmt.Sprintf("string.find(s, %q) return 0", lazyPat)},
-		{Kind: "matchregex-long-input", Family: "matchRegex", Quick: true, Script: double(22) + `matchRegex("(a|aa)*b$", s) return 0`},
+		{Kind: "matchregex-long-input", Family: "matchRegex", Quick: true, Script: double(20) + `matchRegex("(a|aa)*b$", s) return 0`},
 		{Kind: "format-huge-width", Family: "string.format", Quick: true, Script: `local s = string.format("%099999999d", 1) return 0`},
 		{Kind: "format-huge-precision", Family: "string.format", Script: `local s = string.format("%.99999999f", 1) return 0`},
 		{Kind: "concat-large-table", Family: "table.concat", Quick: true, Script: `local t = {} for i = 1, 200000 do t[i] = "abcdefgh" end local s = table.concat(t, ",") return 0`},
-		{Kind: "sort-large-table", Family: "table.sort", Quick: true, Script: `local t = {} for i = 1, 1000000 do t[i] = (i * 7919) % 1000003 end table.sort(t) return 0`},
+		{Kind: "sort-large-table", Family: "table.sort", Quick: true, Script: `local t = {} for i = 1, 500000 do t[i] = (i * 7919) % 1000003 end table.sort(t) return 0`},
 		{Kind: "reverse-large-string", Family: "string.reverse", Script: double(23) + "local r = string.reverse(s) return 0"},
 		{Kind: "gsub-empty-pattern-large", Family: "string.gsub", Script: double(21) + `local r = string.gsub(s, "", "x") return 0`},
 		{Kind: "find-plain-large", Family: "string.find", Script: double(23) + `string.find(s, "ab", 1, true) return 0`},
